@@ -249,14 +249,29 @@ def abstract_mesh(draw, max_j=3, max_i=4, allow_delete=True, allow_merge=True, j
     and deleted cells.  Returns {"nodes": [[x, y]...], "faces": [[node...]...]} with shuffled
     node and face numbering, random ring start and winding per face."""
     nj, ni = _shape(draw, max_j, max_i)
+    balanced_shapes = [(a, b) for a in range(2, max_j + 1) for b in range(2, max_i + 1)
+                       if 2 * a * b >= (a + 1) * (b + 1)]
+    want_balanced = bool(balanced_shapes) and draw(st.integers(0, 5)) == 0
+    if want_balanced:
+        nj, ni = draw(st.sampled_from(balanced_shapes))
     lat = draw(lattice(nj, ni, jitter=jitter, unit_exps=unit_exps))
     group = {}
     groups = []
+    # some meshes are fully triangulated, one in six with exactly as many faces as nodes, which is when an index of one grid kind can be mistaken for one of another
+    triangulated = want_balanced or (nj * ni >= 4 and draw(st.integers(0, 9)) == 0)
+    forced_quads = set()
+    excess = 2 * nj * ni - (nj + 1) * (ni + 1)
+    if want_balanced:
+        # exactly as many faces as lattice nodes: all cells split, but for `excess` of them
+        order = draw(st.permutations([(j, i) for j in range(nj) for i in range(ni)]))
+        forced_quads = set(order[:excess])
     for j in range(nj):
         for i in range(ni):
             if (j, i) in group:
                 continue
             choice = draw(st.sampled_from(
+                ["quad"] if (j, i) in forced_quads else
+                ["tri_a", "tri_b"] if triangulated else
                 ["quad", "quad", "tri_a", "tri_b"]
                 + (["del"] if allow_delete else [])
                 + (["right", "down", "ell", "penta", "hepta"] if allow_merge else [])))
@@ -312,9 +327,14 @@ def abstract_mesh(draw, max_j=3, max_i=4, allow_delete=True, allow_merge=True, j
     if len(faces_lat) < min_faces:
         faces_lat = [_ring_of_cells([(j, i)]) for j in range(nj) for i in range(ni)]
     node_order = draw(st.permutations([(j, i) for j in range(nj + 1) for i in range(ni + 1)]))
-    if draw(st.booleans()):
+    used = {n for f in faces_lat for n in f}
+    if triangulated and len(used) <= len(faces_lat) <= len(node_order) and draw(st.integers(0, 3)) > 0:
+        # keep just enough unused nodes for the node count to equal the face count
+        spare = len(faces_lat) - len(used)
+        keep = set(used) | set([n for n in node_order if n not in used][:spare])
+        node_order = [n for n in node_order if n in keep]
+    elif draw(st.booleans()):
         # drop nodes no face uses (the usual case in real files)
-        used = {n for f in faces_lat for n in f}
         node_order = [n for n in node_order if n in used]
     node_no = {n: k for k, n in enumerate(node_order)}
     nodes = [list(lat[j][i]) for (j, i) in node_order]
@@ -373,10 +393,12 @@ OPTIONAL_TABLES = ["edge_node", "face_edge", "edge_face", "face_face"]
 
 
 @st.composite
-def ugrid_encoding(draw, supply=None, coords_as=None, allow_transpose=True, dtypes=("i4", "i4", "i8", "i2")):
+def ugrid_encoding(draw, supply=None, coords_as=None, allow_transpose=True, dtypes=("i4", "i4", "i8", "i2"),
+                   require_edge_node=True):
     if supply is None:
         supply = [t for t in OPTIONAL_TABLES if draw(st.booleans())]
-    if ("face_edge" in supply or "edge_face" in supply) and "edge_node" not in supply:
+    if (require_edge_node and ("face_edge" in supply or "edge_face" in supply)
+            and "edge_node" not in supply):
         # edge indexes are only defined by the edge-node table: a mesh that refers to edges
         # must say what they are (UGRID conventions)
         supply = ["edge_node"] + list(supply)
@@ -394,7 +416,8 @@ def ugrid_encoding(draw, supply=None, coords_as=None, allow_transpose=True, dtyp
         "dims": draw(st.sampled_from(UGRID_DIMSETS)),
         "start_index": (start_index := draw(st.sampled_from([None, 0, 1, 1]))),
         "fill": draw(st.sampled_from(["nan", "int", "int"])),
-        "fill_value": draw(st.sampled_from([None, None, -1, -999] + ([0] if start_index == 1 else []))),
+        "fill_value": draw(st.sampled_from([None, -1, -999, 0, 0] if start_index == 1 else
+                                          [None, None, -1, -999])),
         "dtype": draw(st.sampled_from(dtypes)),
         "supply": list(supply),
         "transposed": transposed,
@@ -403,6 +426,8 @@ def ugrid_encoding(draw, supply=None, coords_as=None, allow_transpose=True, dtyp
         "coords_as": draw(st.sampled_from(["var", "var", "coord"])) if coords_as is None else coords_as,
         "face_coords": draw(st.booleans()),
         "edge_coords": edge_coords,
+        # a boundary edge's single face may sit in either column of a supplied edge-face table
+        "edge_face_fill_first": draw(st.booleans()),
     }
 
 
@@ -457,7 +482,7 @@ def variable(draw, name, kinds, extra, dtypes=("f8", "f8", "f4", "i4", "i2"), al
         fill = [draw(st.sampled_from(["_FillValue", "missing_value"])),
                 draw(st.sampled_from([-999, 32767 if dtype == "i2" else 999999, -1, 0]))]
     var = {"name": name, "kind": kind, "dims": dims, "dtype": dtype, "fill": fill}
-    can_miss = dtype in ("f8", "f4") or fill is not None
+    can_miss = dtype in ("f8", "f4", "M8") or fill is not None
     if allow_nan and can_miss and sizes is not None and draw(st.booleans()):
         total = 1
         for d in dims:
